@@ -4,7 +4,7 @@ import PoxModel.Spec.OF10Table
 /-! Line-protocol driver for C04: runs the model (`Model/FlowMod.step`) and, separately, the specification
 (`Spec/OF10Table.step`) over one history.
 
-request  `{"now":ms,"max":n,"bufs":n,"cfg":[strictMutual,maskUndefined,statsUnwire],"ops":[op…]}` with
+request  `{"now":ms,"max":n,"bufs":n,"cfg":[strictMutual,maskUndefined,statsUnwire,arpLow8,prereqExact,exactSig],"ops":[op…]}` with
   `{"op":"fm","cmd":n,"m":rec,"cookie":n,"idle":n,"hard":n,"prio":n,"out_port":n,"flags":n,"acts":[act…],"buf":n|null}`
   `{"op":"pkt","phdr":P,"port":n,"len":n}`   `{"op":"adv","dt":ms}`   `{"op":"sweep"}`
   `{"op":"fstats","m":rec,"out_port":n}`     `{"op":"astats","m":rec,"out_port":n}`
@@ -111,8 +111,8 @@ def soutJ : Spec.SOut → J
              J.ofNat f.packets, J.ofNat f.bytes, J.arr (f.actions.map actJ)]))]
   | .aggStats p b n => J.mk [("k", J.str "as"), ("pk", J.ofNat p), ("by", J.ofNat b), ("n", J.ofNat n)]
 
-def entryJ (e : FEntry) : J :=
-  J.arr [J.ofNat e.priority, J.ofNat e.effectivePriority, recJ e.mtch, J.arr (e.data.actions.map actJ), J.ofNat e.data.cookie,
+def entryJ (cfg : Cfg) (e : FEntry) : J :=
+  J.arr [J.ofNat e.priority, J.ofNat (cfg.key e), recJ e.mtch, J.arr (e.data.actions.map actJ), J.ofNat e.data.cookie,
          J.ofNat e.data.flags, J.ofNat e.data.idle, J.ofNat e.data.hard, J.ofNat e.data.created, J.ofNat e.data.touched,
          J.ofNat e.data.packets, J.ofNat e.data.bytes]
 
@@ -126,7 +126,7 @@ def runModel (s : State) : List Op → List J
   | [] => []
   | op :: ops =>
     let r := step s op
-    J.mk [("outs", J.arr (r.2.map outJ)), ("table", J.arr (r.1.table.map entryJ)), ("pool", poolJ r.1.pool)] :: runModel r.1 ops
+    J.mk [("outs", J.arr (r.2.map outJ)), ("table", J.arr (r.1.table.map (entryJ r.1.cfg))), ("pool", poolJ r.1.pool)] :: runModel r.1 ops
 
 def runSpec (t : Spec.STable) : List Op → List J
   | [] => []
@@ -141,8 +141,9 @@ def handle (j : J) : Except String J := do
   let mb ← j.nat "bufs"
   let cfg : Cfg ← (do
     match ← (← j.array "cfg").mapM J.asBool with
-    | [a, b, c] => pure { strictMutual := a, maskUndefined := b, statsUnwire := c }
-    | _ => bad "cfg: three booleans expected")
+    | [a, b, c, d, e, f] =>
+      pure { strictMutual := a, maskUndefined := b, statsUnwire := c, mv := { arpLow8 := d, prereqExact := e, exactSig := f } }
+    | _ => bad "cfg: six booleans expected")
   pure (J.mk [("model", J.arr (runModel (init cfg now mx mb) ops)),
               ("spec", J.arr (runSpec { flows := [], now := now, capacity := mx, buffers := { slots := [], max := mb } } ops))])
 
